@@ -167,11 +167,10 @@ def eq_case(draw):
         # Qadjust switch of the general-h branch sits at gamma_eff*2 = -709.78 (exp overflow): probe both sides
         if draw(st.booleans()):
             gam = -354.89 * (beta + 1) ** 2 / (4 * beta) * draw(st.sampled_from([0.999, 1.001]))
-    # the density's numerical range is governed by the selection strength it works with internally, gamma*nu*4beta/(beta+1)^2:
-    # keep THAT within the property's [-1e6, 1e3]
-    eff = nu * 4 * beta / (beta + 1) ** 2
-    if gam * eff > 1e3 or gam * eff < -1e6:
-        gam = gam / eff
+    # gamma and nu range over the property's stated domain independently (gamma in [-1e6, 1e3], nu in [0.1, 10]): the selection strength
+    # the density works with internally, gamma*nu*4beta/(beta+1)^2, then reaches 1e4 and -1e7; a fifth of the cases sit in those corners
+    if draw(st.integers(0, 4)) == 0:
+        gam, nu = draw(st.sampled_from([(1e3, 10.0), (1e3, 3.0), (300.0, 10.0), (-1e6, 10.0), (-1e6, 3.0), (-1e5, 10.0), (999.0, 10.0), (-3e5, 10.0)]))
     spec = draw(G.grid_spec(min_pts=8, max_pts=40, kinds=('uniform', 'exponential', 'quadratic', 'random')))
     # the density functions also accept a grid of interior frequencies only (no 0 and 1)
     return dict(gamma=gam, h=h, beta=beta, nu=nu, theta0=draw(st.floats(0.1, 10.0)), grid=spec, interior=draw(st.sampled_from([False, False, False, True])))
